@@ -366,7 +366,15 @@ fn inert_element_to_tokens(
                                     {
                                         if let Lit::Str(txt) = &lit.lit {
                                             let value = txt.value();
-                                            let value = html_escape::encode_double_quoted_attribute(&value);
+                                            // the class attribute is trimmed when it is
+                                            // rendered at runtime (`attributes_to_html`
+                                            // in tachys): do the same here
+                                            let value = if attr_name == "class" {
+                                                value.trim()
+                                            } else {
+                                                value.as_str()
+                                            };
+                                            let value = html_escape::encode_double_quoted_attribute(value);
                                             if attr_name == "class" {
                                                 html.push_class(&value);
                                             } else {
